@@ -704,6 +704,14 @@ class Ranges:
             raise _Ret(self.ev(s.value) if s.value is not None else UNK)
         if not isinstance(s, ast.Assign) or len(s.targets) != 1:
             return
+        t0 = s.targets[0]
+        if isinstance(t0, (ast.Tuple, ast.List)) and isinstance(s.value, (ast.Tuple, ast.List)) and len(t0.elts) == len(s.value.elts) \
+                and all(isinstance(x, ast.Name) for x in t0.elts) \
+                and not ({x.id for x in t0.elts} & {y.id for v in s.value.elts for y in ast.walk(v) if isinstance(y, ast.Name)}):
+            # a, b = X, Y with targets that the right-hand side does not read: the same as a = X; b = Y
+            for x, v in zip(t0.elts, s.value.elts):
+                self.stmt(ast.copy_location(ast.Assign(targets=[x], value=v), s))
+            return
         self.gathers(s)
         t = s.targets[0]
         # rank[e] = X.shape[i]: from here on the symbol rank[e] denotes that size
